@@ -34,13 +34,44 @@ def _is_method_call(mod, n):
     return isinstance(p, ast.Call) and p.func is n
 
 
-def run(repo, res, rid, floor=3):
+_FIXTURE = """
+def f(ts, nodes_time):
+    a = nodes_time[: ts.num_samples]
+    b = np.arange(ts.num_samples, ts.num_nodes)
+    for index in range(ts.num_nodes):
+        if index >= ts.num_samples:
+            nodes_time[index] = 0
+"""
+
+
+def _fixture_ok():
+    """a rule whose expected count on a healthy tree is zero must still match its positive example"""
+    from .. import report
+    from ..base import Mod
+
+    class R:
+        mods = {"util": Mod("util", "fixture", _FIXTURE)}
+
+        @staticmethod
+        def loc(f, n=None):
+            return "fixture"
+
+    tmp = report.Result("fixture")
+    run(R, tmp, "RX", floor=1, scope=["util.f"])
+    return len(tmp.violations()) == 3
+
+
+def run(repo, res, rid, floor=3, scope=None):
+    from .common import in_scope
+
     n_uses = 0
     for mname in MODULES:
         if mname not in repo.mods:
             continue
         mod = repo.mods[mname]
         for q, f in mod.funcs.items():
+            if not in_scope(scope, mname, q):
+                continue
             nodes = list(own_nodes(f))
             uses = [n for n in nodes if isinstance(n, ast.Attribute) and n.attr == "num_samples" and not _is_method_call(mod, n)]
             if not uses:
@@ -79,6 +110,8 @@ def run(repo, res, rid, floor=3):
                 res.bad(rid, f"{mname}.{q} {pat} `{U(n)[:60]}`", why + "; use ts.samples() or the NODE_IS_SAMPLE bit", repo.loc(f, n))
             if not bad:
                 res.ok(rid, f"{mname}.{q} uses num_samples as a count only", f"{len(uses)} use(s)", repo.loc(f, uses[0]))
+    if floor == 0 and not _fixture_ok():
+        raise AnalysisError(f"{rid}: the positive fixture of the sample-order rule was not recognised (rule broken)")
     if n_uses < floor:
         raise AnalysisError(f"{rid}: only {n_uses} reads of num_samples found (expected >= {floor})")
     res.count(f"{rid}_num_samples_reads", n_uses)
